@@ -5,9 +5,18 @@ From LV Require Import Base Stream StreamFacts.
 From LV.Checks Require Import C19Hold.
 From LVGen Require GenStream.
 
+(* the writer run with the bodies regenerated from the source: every byte of every chunk through
+   gen_mw_byte, then drop *)
+Definition gen_mw_run (f : bytes -> bytes) (mk : N) (chunks : list bytes) : option bytes :=
+  let step := fun (st : bytes * option bytes) (x : N) => GenStream.gen_mw_byte f (fst st) (snd st) mk x in
+  let st := fold_left (fun st chunk => fold_left step chunk st) chunks ([], Some []) in
+  snd (GenStream.gen_mw_drop f (fst st) (snd st)).
+
 Definition agrees (c : case) : bool :=
   match c with
-  | CMapped k mk chunks out => beq out (mw_run (mapper_fn k) mk GenStream.mapped_skips_empty_remainder chunks)
+  | CMapped k mk chunks out =>
+      beq out (mw_run (mapper_fn k) mk GenStream.mapped_skips_empty_remainder chunks) &&
+      match gen_mw_run (mapper_fn k) mk chunks with Some o => beq out o | None => false end
   | CTee chunks a b => let '(x, y) := tee_run chunks in beq a x && beq b y
   | CCommand _ _ _ _ _ _ _ _ _ _ => holds c
   end.
